@@ -486,6 +486,9 @@ func corr(e *env, seed uint64, n int) {
 	// --- U / V: durations, flags, composition offsets, decode times; the trun codec
 	e.timingCases(r, n/8, next)
 	trunMalformed(r, n/2, next)
+	// --- W / X: the sample entry and its sinf as bytes; the sinf / frma / schm / schi / tenc decoders
+	e.entryByteCases(r, n/4, next)
+	sinfDecodeCases(r, n/2, next)
 	thirdPartyStruct(e, next)
 	out.Flush()
 }
